@@ -19,22 +19,22 @@ def profName : Prof → Bytes
     anything unregistered → error. -/
 theorem cbor_dispatch (u : Bytes → Dec Bytes) (extra : List Bytes) (t : Cbor) (name : Bytes)
     (hs : selectProfile t = .ok name) :
-    (name = [] ∨ name = p1Name → decodeClaimsTree u extra t = unmarshalInto u (Claims.new .p1) t) ∧
-    (name = p2Name → decodeClaimsTree u extra t = unmarshalInto u (Claims.new .p2) t) ∧
-    (lookupProfile extra name = none → decodeClaimsTree u extra t = .err) := by
+    (name = [] ∨ name = p1Name → decodeClaimsMap u extra t = unmarshalInto u (Claims.new .p1) t) ∧
+    (name = p2Name → decodeClaimsMap u extra t = unmarshalInto u (Claims.new .p2) t) ∧
+    (lookupProfile extra name = none → decodeClaimsMap u extra t = .err) := by
   refine ⟨?_, ?_, ?_⟩
   · intro h
-    unfold decodeClaimsTree
+    unfold decodeClaimsMap
     rw [hs]; simp only [Dec.bind]
     rcases h with rfl | rfl <;> simp [lookupProfile]
   · intro h; subst h
-    unfold decodeClaimsTree
+    unfold decodeClaimsMap
     rw [hs]; simp only [Dec.bind]
     have : lookupProfile extra p2Name = some .p2 := by
       unfold lookupProfile; rw [if_neg (by decide), if_pos (by decide)]
     rw [this]
   · intro h
-    unfold decodeClaimsTree
+    unfold decodeClaimsMap
     rw [hs]; simp only [Dec.bind, h]
 
 /-- A token with no profile claim (no entry selecting key 265) is decoded as profile 1. -/
@@ -63,6 +63,7 @@ theorem no_profile_is_p1_cbor (u : Bytes → Dec Bytes) (extra : List Bytes) (kv
         exact ih s (fun kv' hkv' => h kv' (by simp [hkv']))
     simp only [key kvs _ hk]
     rfl
+  show decodeClaimsMap u extra (.map kvs) = _
   exact (cbor_dispatch u extra (.map kvs) [] hs).1 (Or.inl rfl)
 
 /-- JSON: a document with no (or a null) profile member is decoded as profile 1. -/
@@ -76,10 +77,12 @@ theorem no_profile_is_p1_json (u : Bytes → Dec Bytes) (ms : List (Bytes × Jso
 theorem unknown_profile_err (u : Bytes → Dec Bytes) (extra : List Bytes) (t : Cbor) (name : Bytes)
     (hs : selectProfile t = .ok name) (hn : name ≠ [] ∧ name ≠ p1Name ∧ name ≠ p2Name ∧ name ∉ extra) :
     decodeClaimsTree u extra t = .err := by
-  apply (cbor_dispatch u extra t name hs).2.2
-  obtain ⟨h1, h2, h3, h4⟩ := hn
-  unfold lookupProfile
-  simp [h1, h2, h3, h4]
+  have hm : decodeClaimsMap u extra t = .err := by
+    apply (cbor_dispatch u extra t name hs).2.2
+    obtain ⟨h1, h2, h3, h4⟩ := hn
+    unfold lookupProfile
+    simp [h1, h2, h3, h4]
+  cases t <;> first | rfl | exact hm
 
 /-- A token is only ever validated under the rules of the profile it declares, and an accepted
     token reports that same profile: whatever decode-and-validate returns is a claims-set of the
@@ -90,7 +93,9 @@ theorem accepted_reports_declared (u : Bytes → Dec Bytes) (extra : List Bytes)
     ∃ name, selectProfile t = .ok name ∧
       ((name = [] ∨ name = p1Name) ∧ c.prof = .p1 ∨ name = p2Name ∧ c.prof = .p2) ∧
       getProfile c = .ok (.text (profName c.prof)) := by
-  unfold decodeClaimsTree at hd
+  have hd : decodeClaimsMap u extra t = .ok c := by
+    cases t <;> first | exact hd | cases hd
+  unfold decodeClaimsMap at hd
   cases hs : selectProfile t with
   | err => rw [hs] at hd; cases hd
   | ood => rw [hs] at hd; cases hd
@@ -140,6 +145,12 @@ theorem accepted_reports_declared (u : Bytes → Dec Bytes) (extra : List Bytes)
           rw [hp2]
           unfold getProfile; simp only [hp2]
           simp [hprofile, hcan2, profName]
+
+/-- Anything that is not a CBOR map — null, undefined, a tagged item, an array … — is rejected
+    (the repaired behaviour, fix d1614d8). -/
+theorem non_map_rejected (u : Bytes → Dec Bytes) (extra : List Bytes) (t : Cbor) (h : ∀ kvs, t ≠ .map kvs) :
+    decodeClaimsTree u extra t = .err := by
+  cases t <;> first | rfl | exact absurd rfl (h _)
 
 /-- `NewClaims(p)` reports `p` (built-in profiles). -/
 theorem newClaims_reports (p : Prof) : getProfile (Claims.new p) = .ok (.text (profName p)) := by
